@@ -165,6 +165,6 @@ def jobs(tier):
     for N in (1, 2):
         J.append(dict(harness=('c03', 'h_homomorphism'), params=dict(N=N), timeout_s=300, cost=50))
     if tier == 'thorough':
-        J.append(dict(harness=('c03', 'h_homomorphism'), params=dict(N=3), timeout_s=900, cost=100, claimed=False,
+        J.append(dict(harness=('c03', 'h_homomorphism'), params=dict(N=3), timeout_s=300, wall_s=1500, cost=100, claimed=False,
                       label='stretch:h_homomorphism{"N": 3}'))
     return J
